@@ -19,7 +19,7 @@ META = {
     "assumptions_list": ["requested time points of one call are strictly increasing (scipy rejects otherwise)", "real arithmetic"],
 }
 
-MODS = ["mxlpy.model", "mxlpy.simulator", "mxlpy.integrators.int_scipy", "mxlpy.simulation"]
+MODS = ["mxlpy.model", "mxlpy.simulator", "mxlpy.integrators.int_scipy", "mxlpy.simulation", "mxlpy"]
 
 
 def ghost_pvals(m):
@@ -108,6 +108,8 @@ class Hist(Scenario):
                 if raised:
                     continue
                 kept = [q for q in pts if bool(q > reached)]
+                if not kept:
+                    return  # the refusal obligation above has already failed
                 new = [(q, fm.flow(p, y_cur, reached, q, sym)) for q in kept]
                 if not started:
                     rows += [(reached, list(y_cur))]
@@ -115,6 +117,22 @@ class Hist(Scenario):
                 started = True
                 y_cur = new[-1][1]
                 reached = kept[-1]
+                segp.append(p)
+            elif op == "PR":
+                # a one-step protocol of duration 1/2 that sets the parameter (continues from the time reached)
+                from mxlpy import make_protocol
+
+                val = ctx.real(f"pr{i}")
+                with ctx.impl(f"op{i} simulate_protocol"):
+                    sim.simulate_protocol(make_protocol([(0.5, {pname: val})]), time_points_per_step=1)
+                p = ghost_pvals(m)
+                ctx.eq(f"op{i} PR: the step's value is in force", p[pname], val)
+                t = reached + 0.5
+                new = [(reached, list(y_cur)), (t, fm.flow(p, y_cur, reached, t, sym))]
+                rows += new if not started else new[1:]
+                started = True
+                y_cur = new[-1][1]
+                reached = t
                 segp.append(p)
             elif op == "UP":
                 with ctx.impl(f"op{i} update_parameter"):
@@ -201,7 +219,7 @@ def histories(tier):
     out = []
     for n in range(1, L + 1):
         for h in it.product(alphabet, repeat=n):
-            if not any(o in h for o in ("S1", "S2", "S3", "SN", "TC1", "TC2", "TC3")):
+            if not any(o in h for o in ("S1", "S2", "S3", "SN", "TC1", "TC2", "TC3", "PR")):
                 continue
             if h[-1] in ("UP", "UV") :
                 continue  # trailing edits are unobservable
@@ -230,6 +248,8 @@ def scenarios(tier, seed):
         if sc_.key not in have:
             have.add(sc_.key)
             scs.append(sc_)
+    for h in (("PR",), ("PR", "S1"), ("S1", "UP", "PR"), ("S1", "UP", "PR", "S1"), ("TC2", "UP", "PR", "TC2"), ("S1", "PR", "UV", "S1"), ("S1", "UP", "UV", "PR")):
+        scs.append(Hist("decay", h))
     # minimal histories for constructs with open findings (kept out of the composites above)
     for h in (("SS",), ("S1", "SS"), ("SS", "S1"), ("UV", "SS"), ("S1", "SS", "S1"), ("S1", "UV", "SS"), ("SS", "TC2")):
         scs.append(Hist("decay", h))
